@@ -112,3 +112,10 @@ func init() {
 		NotDecided:  "the combinatorial claim itself (every tuple exactly once per product-of-bounds consecutive attempts) as a statement about run-time sequences.",
 		Assumptions: commonAssumptions})
 }
+
+func init() {
+	prop(&PropInfo{ID: "C02", Level: "translation_validation",
+		Explanation: "Purely syntactic translation validation of every checked-in spec/Go pair: the MPCal block is parsed and normalised as the compiler's front end does, and each critical section (statement structure, every read/write target and index, every expression as a canonical token sequence), each archetype/procedure table entry, each operator definition and each Goto/Call target is compared with what is recovered from the generated Go by inverting the code generator's templates. Neither artefact is executed and the Scala compiler is not needed.",
+		NotDecided:  "the PlusCal back end and the BEGIN TRANSLATION text; run-time semantics of the distsys library calls (C01/C03/C04); regroupings that keep the same tokens in the same order; the Scala compiler itself.",
+		Assumptions: append([]string{"the re-implementation of MPCalNormalizePass and the inverted templates in checker/specmatch are faithful to pgo/src/trans (validated by agreement on all checked-in pairs)"}, commonAssumptions...)})
+}
